@@ -33,6 +33,8 @@ use std::path::{Path, PathBuf};
 
 #[path = "c12/names.rs"]
 mod names;
+#[path = "c12/sessions.rs"]
+mod sessions;
 
 const MAIN_PATH: &str = "/p/main.graphql";
 const STANDALONE_CONFIG: &str = "schema: ./schema.graphql\ndocuments: ./*.graphql\nextensions:\n  nitrogql:\n    generate:\n      mode: standalone-ts-4.0\n";
@@ -45,13 +47,25 @@ struct Case {
     origin: String,
     /// not an accepted document on purpose (undefined / duplicate fragment names): K only
     k_only: bool,
+    /// a build of a loader session: the module texts were produced elsewhere (session worker); only they are judged,
+    /// against this case's files, and a failure is reported with the whole session as the case
+    external: Option<External>,
+}
+
+#[derive(Clone, Debug)]
+struct External {
+    case_json: Value,
+    outputs: Vec<(&'static str, Result<String, String>)>,
 }
 
 impl Case {
     fn text(main: &str) -> Case {
-        Case { schema: None, main: main.to_string(), imports: vec![], origin: "corpus".into(), k_only: false }
+        Case { schema: None, main: main.to_string(), imports: vec![], origin: "corpus".into(), k_only: false, external: None }
     }
     fn to_json(&self) -> Value {
+        if let Some(x) = &self.external {
+            return x.case_json.clone();
+        }
         json!({"schema": self.schema, "main": self.main, "imports": self.imports, "k_only": self.k_only})
     }
     fn from_json(v: &Value) -> Case {
@@ -64,6 +78,7 @@ impl Case {
                 .unwrap_or_default(),
             origin: "replay".into(),
             k_only: v["k_only"].as_bool().unwrap_or(false),
+            external: None,
         }
     }
 }
@@ -189,6 +204,21 @@ struct RealOut {
 }
 
 fn run_real(case: &Case, with_loader: bool) -> Result<RealOut, String> {
+    if let Some(x) = &case.external {
+        // the source as the real parser + import resolver read the files THIS build was given
+        let source = with_resolved(case, |doc| from_real_doc(doc))?;
+        let outputs = x
+            .outputs
+            .iter()
+            .map(|(path, r)| {
+                (*path, match r {
+                    Err(e) => Err(format!("error: {e}")),
+                    Ok(text) => extract_consts(text).map(|v| v.into_iter().map(|(_, j)| j).collect()),
+                })
+            })
+            .collect();
+        return Ok(RealOut { source, check_errors: None, outputs });
+    }
     let (source, js) = with_resolved(case, |doc| {
         let source = from_real_doc(doc);
         let js = catch(AssertUnwindSafe(|| {
@@ -677,6 +707,24 @@ struct Prepared {
 }
 
 impl<'a> Ctx<'a> {
+    /// an O failure. On the interleaved-loader path the signature is the coarse class (the one-at-a-time result of the
+    /// same files is judged separately, so what fails here is owed to the interleaving, and WHICH component of the
+    /// foreign / stale document differs first depends on the random neighbours, not on the defect)
+    fn ofail(&mut self, path: &str, sig: &str, what: &str, case: Value) {
+        if path == "loader-interleaved" {
+            let class = if sig.starts_with("roundtrip:") || sig == "module:definition-count" {
+                "not-the-source-document"
+            } else if sig.starts_with("closure:") {
+                "closure"
+            } else {
+                sig
+            };
+            self.rep.fail("O", &format!("loader-interleaved:{class}"), what, case);
+        } else {
+            self.rep.fail("O", sig, what, case);
+        }
+    }
+
     fn run(&mut self, cases: &[(Case, BTreeSet<String>)]) {
         let mut reqs: Vec<Sexp> = vec![];
         let mut prepared: Vec<Prepared> = vec![];
@@ -695,7 +743,9 @@ impl<'a> Ctx<'a> {
             for f in features {
                 self.rep.count(&format!("feature:{f}"));
             }
-            if let Some(n) = real.check_errors {
+            if case.external.is_some() {
+                self.rep.count("checker:not-run(session build)");
+            } else if let Some(n) = real.check_errors {
                 self.rep.count(if n == 0 { "checker:accepted" } else { "checker:rejected(js path only)" });
             } else {
                 self.rep.count("checker:no-schema(syntactic document)");
@@ -752,6 +802,11 @@ impl<'a> Ctx<'a> {
                     let real_panics = e.starts_with("panic: ") || (e.starts_with("error: ") && e.contains("is not defined"));
                     if real_panics != model_panics || !real_panics {
                         self.rep.fail("K", &format!("{path}:no-output"), &format!("{path}: the code gives no runtime documents ({e}); model panics: {model_panics}"), case_json.clone());
+                        if *path == "loader-interleaved" && !p.case.k_only && !model_panics {
+                            // one at a time the same files give a module: this build's documents are lost to the interleaving
+                            self.rep.o_cases += 1;
+                            self.ofail(path, "no-module", &format!("{path}: no module for this build ({e}) although its files are an accepted document"), case_json.clone());
+                        }
                     } else {
                         self.rep.count(&format!("{path}:panic-agreed(undefined fragment)"));
                     }
@@ -760,6 +815,11 @@ impl<'a> Ctx<'a> {
                     if vals.len() != n {
                         self.rep.k_cases += 1;
                         self.rep.fail("K", &format!("{path}:definition-count"), &format!("{path}: {} constants for {n} definitions", vals.len()), case_json.clone());
+                        if !p.case.k_only {
+                            // the property quantifies over every definition X of the source: JSON(X) must exist, and nothing else
+                            self.rep.o_cases += 1;
+                            self.ofail(path, "module:definition-count", &format!("{path}: the module embeds {} documents, the source has {n} definitions", vals.len()), case_json.clone());
+                        }
                         continue;
                     }
                     for i in 0..n {
@@ -785,16 +845,16 @@ impl<'a> Ctx<'a> {
                         self.rep.o_cases += 1;
                         let got = &ans[p.reads[pi][i]];
                         if got.head() != Some("ok") {
-                            self.rep.fail("O", "unreadable", &format!("{path}, definition {i}: the emitted JSON is not a graphql-js DocumentNode ({})", got.to_line()), case_json.clone());
+                            self.ofail(path, "unreadable", &format!("{path}, definition {i}: the emitted JSON is not a graphql-js DocumentNode ({})", got.to_line()), case_json.clone());
                             continue;
                         }
                         let got_defs: Vec<Sexp> = got.args()[0].args().iter().map(strip_pos).collect();
                         if got_defs.is_empty() {
-                            self.rep.fail("O", "empty-document", &format!("{path}, definition {i}: no definitions"), case_json.clone());
+                            self.ofail(path, "empty-document", &format!("{path}, definition {i}: no definitions"), case_json.clone());
                             continue;
                         }
                         if let Some(d) = sexp_diff(&src[i], &got_defs[0], "definition") {
-                            self.rep.fail("O", &format!("roundtrip:{d}"), &format!("{path}, definition {i}: the JSON denotes {} but the source is {}", got_defs[0].to_line(), src[i].to_line()), case_json.clone());
+                            self.ofail(path, &format!("roundtrip:{d}"), &format!("{path}, definition {i}: the JSON denotes {} but the source is {}", got_defs[0].to_line(), src[i].to_line()), case_json.clone());
                         }
                         let refc = &ans[p.closure[i]];
                         if refc.head() != Some("ok") {
@@ -812,7 +872,7 @@ impl<'a> Ctx<'a> {
                             }
                         }
                         if bad_tail {
-                            self.rep.fail("O", "closure:non-fragment-appended", &format!("{path}, definition {i}: a non-fragment definition follows the first one"), case_json.clone());
+                            self.ofail(path, "closure:non-fragment-appended", &format!("{path}, definition {i}: a non-fragment definition follows the first one"), case_json.clone());
                         }
                         let have_in_order = have.clone();
                         want.sort();
@@ -831,13 +891,13 @@ impl<'a> Ctx<'a> {
                                 _ => "",
                             };
                             let sig = &format!("{base}{rel}");
-                            self.rep.fail("O", sig, &format!("{path}, definition {i}: appended fragments {have_in_order:?}, needed {want_in_order:?}"), case_json.clone());
+                            self.ofail(path, sig, &format!("{path}, definition {i}: appended fragments {have_in_order:?}, needed {want_in_order:?}"), case_json.clone());
                         }
                         for d in &got_defs[1..] {
                             if let Some(nm) = def_name(d) {
                                 if let Some(s) = frag_by_name.get(&nm) {
                                     if let Some(df) = sexp_diff(s, d, "definition") {
-                                        self.rep.fail("O", &format!("roundtrip:{df}"), &format!("{path}, definition {i}: appended fragment {nm} denotes {} but the source is {}", d.to_line(), s.to_line()), case_json.clone());
+                                        self.ofail(path, &format!("roundtrip:{df}"), &format!("{path}, definition {i}: appended fragment {nm} denotes {} but the source is {}", d.to_line(), s.to_line()), case_json.clone());
                                     }
                                 }
                             }
@@ -855,6 +915,175 @@ impl<'a> Ctx<'a> {
             self.rep.sample(json!({"main": p.case.main, "imports": p.case.imports, "definitions": n}));
         }
     }
+}
+
+// ---------------------------------------------------------------------------------------- interleaved loader sessions
+
+/// several builds on one loader instance: (the case, the directory its files live in) and the interleavings to try
+struct SessionCase {
+    builds: Vec<(Case, String)>,
+    /// `{"schedule":[k…], "abandon":[null|n…]}` each, with a label for the evidence
+    specs: Vec<(Value, String)>,
+}
+
+fn in_dir(path: &str, dir: &str) -> String {
+    match path.strip_prefix("/p/") {
+        Some(rest) => format!("{dir}/{rest}"),
+        None => path.to_string(),
+    }
+}
+
+/// estimated number of ABI calls of a build (initiate, required, [loads, required], emit, free)
+fn calls_of(case: &Case) -> usize {
+    4 + if case.imports.is_empty() { 0 } else { case.imports.len() + 1 }
+}
+
+impl SessionCase {
+    fn builds_json(&self) -> Value {
+        Value::Array(
+            self.builds
+                .iter()
+                .map(|(c, dir)| {
+                    json!({"path": in_dir(MAIN_PATH, dir), "text": c.main,
+                           "files": c.imports.iter().map(|(p, t)| json!([in_dir(p, dir), t])).collect::<Vec<_>>()})
+                })
+                .collect(),
+        )
+    }
+    /// the replayable case: the builds and ONE interleaving
+    fn case_json(&self, spec: &Value) -> Value {
+        json!({"session": {
+            "builds": self.builds.iter().map(|(c, dir)| json!({"dir": dir, "schema": c.schema, "main": c.main, "imports": c.imports, "k_only": c.k_only})).collect::<Vec<_>>(),
+            "schedule": spec["schedule"], "abandon": spec["abandon"]}})
+    }
+    fn from_json(v: &Value) -> SessionCase {
+        let s = &v["session"];
+        SessionCase {
+            builds: s["builds"].as_array().map(|a| a.iter().map(|b| (Case::from_json(b), b["dir"].as_str().unwrap_or("/p").to_string())).collect()).unwrap_or_default(),
+            specs: vec![(json!({"schedule": s["schedule"], "abandon": s["abandon"]}), "replay".to_string())],
+        }
+    }
+}
+
+impl<'a> Ctx<'a> {
+    /// run every session in the worker; judge, per build, the one-at-a-time module and every module that differs from it
+    fn run_sessions(&mut self, client: &mut sessions::Client, scs: &[SessionCase]) {
+        let mut items: Vec<(Case, BTreeSet<String>)> = vec![];
+        for sc in scs {
+            if sc.builds.is_empty() {
+                continue;
+            }
+            let mut specs = vec![json!({"schedule": [], "abandon": []})];
+            specs.extend(sc.specs.iter().map(|(v, _)| v.clone()));
+            let answers = client.run(&sc.builds_json(), &specs);
+            self.rep.count(&format!("session:builds:{}", sc.builds.len()));
+            let build_item = |k: usize, spec: &Value, path: &'static str, out: Result<String, String>| -> (Case, BTreeSet<String>) {
+                let mut cj = sc.case_json(spec);
+                cj["build"] = json!(k);
+                let mut c = sc.builds[k].0.clone();
+                c.origin = format!("session-build({path})");
+                c.external = Some(External { case_json: cj, outputs: vec![(path, out)] });
+                (c, BTreeSet::new())
+            };
+            let read_out = |o: &Value| -> Option<Result<String, String>> {
+                match (o[0].as_str(), o[1].as_str()) {
+                    (Some("js"), Some(t)) => Some(Ok(t.to_string())),
+                    (Some("err"), Some(e)) => Some(Err(e.to_string())),
+                    _ => None,
+                }
+            };
+            for (si, a) in answers.iter().enumerate() {
+                let label = if si == 0 { "one-at-a-time".to_string() } else { sc.specs[si - 1].1.clone() };
+                self.rep.count(&format!("session:schedule:{label}"));
+                let cj = sc.case_json(&specs[si]);
+                match a {
+                    sessions::Answer::Died(d) => {
+                        // an abort inside the loader: no module for any build of the session
+                        self.rep.o_cases += 1;
+                        let path = if si == 0 { "loader-seq" } else { "loader-interleaved" };
+                        self.ofail(path, &format!("worker-died:{}", d.call), &format!("{path}: the loader process died during the session ({label}): {}", d.why), cj);
+                    }
+                    sessions::Answer::Ok(v) if v["panic"].as_bool() == Some(true) || !v["out"].is_array() => {
+                        self.rep.fail("K", "session:worker-thread-failed", &format!("the session thread of the worker failed ({label}): {v}"), cj);
+                    }
+                    sessions::Answer::Ok(v) => {
+                        self.rep.count(&format!("session:max-live-tasks:{}", v["live_max"].as_u64().unwrap_or(0).min(4)));
+                        for (k, o) in v["out"].as_array().unwrap().iter().enumerate().take(sc.builds.len()) {
+                            match (si, o[0].as_str()) {
+                                (0, _) => match read_out(o) {
+                                    Some(r) => items.push(build_item(k, &specs[0], "loader-seq", r)),
+                                    None => self.rep.fail("K", "session:protocol", &format!("unexpected answer {o}"), cj.clone()),
+                                },
+                                (_, Some("=")) => self.rep.count("session:module-same-as-one-at-a-time"),
+                                (_, Some("abandoned")) => self.rep.count("session:build-given-up"),
+                                _ => match read_out(o) {
+                                    Some(r) => {
+                                        let what = match &r {
+                                            Ok(t) => format!("a different module ({} bytes)", t.len()),
+                                            Err(e) => format!("an error: {e}"),
+                                        };
+                                        self.rep.k_cases += 1;
+                                        self.rep.fail(
+                                            "K",
+                                            "loader-interleaved:differs-from-one-at-a-time",
+                                            &format!("build {k} ({label}): interleaved with the other builds its task gives {what}; trace: {}", v["trace"]),
+                                            cj.clone(),
+                                        );
+                                        items.push(build_item(k, &specs[si], "loader-interleaved", r));
+                                    }
+                                    None => self.rep.fail("K", "session:protocol", &format!("unexpected answer {o}"), cj.clone()),
+                                },
+                            }
+                        }
+                    }
+                }
+            }
+        }
+        self.run(&items);
+    }
+}
+
+/// sessions of fixed general shapes over small builds: non-LIFO frees with a later start, a build given up, two builds of
+/// the same module, an erroring build (never freed, like loader-core) among good ones
+fn corpus_sessions() -> Vec<SessionCase> {
+    let with_import = |main: &str, frags: &str| Case { schema: None, main: main.to_string(), imports: vec![("/p/frags.graphql".into(), frags.to_string())], origin: "corpus".into(), k_only: false, external: None };
+    let a = Case::text("query A { a ...FA } fragment FA on T { x }");
+    let b = with_import("#import * from \"./frags.graphql\"\nquery B($v: Int = 1) { b(x: $v) { ...P } }", "fragment P on T { p ...Q } fragment Q on T { q } fragment R on T { r }");
+    let c = Case::text("mutation C { c { ...G } } fragment G on T { g }");
+    let d = with_import("#import Z from \"./frags.graphql\"\nsubscription D { ...Z } fragment L on T { ...Z l }", "fragment Z on T { z }");
+    let mut bad = Case::text("query E { ...Nowhere }");
+    bad.k_only = true;
+    let spec = |s: &[usize], ab: &[Option<usize>]| (json!({"schedule": s, "abandon": ab}), "corpus".to_string());
+    let dirs = |cs: Vec<Case>| -> Vec<(Case, String)> { cs.into_iter().enumerate().map(|(k, c)| (c, format!("/p{k}"))).collect() };
+    vec![
+        SessionCase {
+            builds: dirs(vec![a.clone(), b.clone(), c.clone()]),
+            specs: vec![
+                // A and B start, A is finished and freed, C starts while B waits for its file
+                spec(&[0, 1, 1, 0, 0, 0, 2, 1, 2, 1, 2, 1, 2, 1], &[]),
+                // all start, the middle one is finished first
+                spec(&[0, 1, 2, 1, 1, 1, 1, 1, 0, 2, 0, 2, 0, 2], &[]),
+                // B is given up while waiting; the others go on
+                spec(&[0, 1, 1, 2, 0, 2, 0, 2], &[None, Some(2), None]),
+            ],
+        },
+        SessionCase {
+            builds: dirs(vec![b.clone(), d.clone(), a.clone(), c.clone()]),
+            specs: vec![
+                spec(&[0, 1, 0, 1, 1, 1, 1, 1, 2, 0, 2, 3, 0, 3, 0, 2, 3, 2, 3], &[]),
+                spec(&[0, 1, 2, 2, 2, 2, 3, 0, 1, 3, 0, 1, 3, 3], &[]),
+            ],
+        },
+        SessionCase {
+            // the same module built twice at the same time (two compilations of a bundler), next to another one
+            builds: vec![(b.clone(), "/p0".into()), (b.clone(), "/p0".into()), (d.clone(), "/p2".into())],
+            specs: vec![spec(&[0, 1, 0, 1, 0, 0, 0, 0, 2, 1, 2, 1, 2], &[]), spec(&[0, 2, 1, 0, 2, 1, 0, 2, 1, 0, 0, 0, 2, 2, 2], &[])],
+        },
+        SessionCase {
+            builds: dirs(vec![bad.clone(), a.clone(), c.clone(), d.clone()]),
+            specs: vec![spec(&[0, 1, 0, 0, 2, 1, 1, 1, 3, 2, 3, 2, 3, 2], &[]), spec(&[1, 0, 2, 0, 0, 2, 2, 2, 3, 1, 3, 1], &[])],
+        },
+    ]
 }
 
 fn corpus() -> Vec<Case> {
@@ -895,6 +1124,7 @@ fn corpus() -> Vec<Case> {
         imports: vec![("/p/frags.graphql".into(), "fragment B on T { b ...A } fragment A on T { a }".into())],
         origin: "corpus".into(),
         k_only: false,
+        external: None,
     });
     v.push(Case {
         schema: Some("type Query { me: Person! } type Mutation { rename(name: String): Person } type Person { id: ID! name: String best: Person }".into()),
@@ -902,6 +1132,7 @@ fn corpus() -> Vec<Case> {
         imports: vec![],
         origin: "corpus".into(),
         k_only: false,
+        external: None,
     });
     for c in [
         "query Q { ...Missing }",
@@ -918,6 +1149,7 @@ fn corpus() -> Vec<Case> {
         imports: vec![("/p/frags.graphql".into(), "fragment A on T { ...B } fragment B on T { b } fragment C on T { c }".into())],
         origin: "corpus".into(),
         k_only: false,
+        external: None,
     });
     v.push(Case {
         schema: Some("type Query { me: User } type User { id: ID! name: String friend: User }".into()),
@@ -925,11 +1157,16 @@ fn corpus() -> Vec<Case> {
         imports: vec![],
         origin: "corpus".into(),
         k_only: false,
+        external: None,
     });
     v
 }
 
 fn main() {
+    if std::env::args().nth(1).as_deref() == Some("--session-worker") {
+        sessions::worker_main();
+        return;
+    }
     let args = Args::parse();
     quiet_panics();
     loader_native::init(0);
@@ -942,16 +1179,25 @@ fn main() {
 
     if let Some(path) = &args.replay {
         let v: Value = serde_json::from_str(&std::fs::read_to_string(path).expect("replay file")).expect("replay json");
-        let case = Case::from_json(&v["case"]);
-        ctx.run(&[(case, BTreeSet::new())]);
+        if v["case"].get("session").is_some() {
+            let mut client = sessions::Client::new();
+            ctx.run_sessions(&mut client, &[SessionCase::from_json(&v["case"])]);
+        } else {
+            let case = Case::from_json(&v["case"]);
+            ctx.run(&[(case, BTreeSet::new())]);
+        }
         rep.write(&args);
         return;
     }
 
     // C12_SKIP_CORPUS=1 (debugging aid): only the generated streams, to see what THEY find
+    let mut client = sessions::Client::new();
     if std::env::var("C12_SKIP_CORPUS").is_err() {
         ctx.run(&corpus().into_iter().map(|c| (c, BTreeSet::new())).collect::<Vec<_>>());
+        ctx.run_sessions(&mut client, &corpus_sessions());
     }
+    // builds for the interleaved loader sessions (C) are drawn from the cases of (A) and (B)
+    let mut pool: Vec<Case> = vec![];
 
     let search = args.extra.get("search").map_or(false, |s| s == "1");
     let mut rng = Rng::new(args.seed);
@@ -985,7 +1231,13 @@ fn main() {
         }
         let main = render(&mut rng, &main_doc);
         let imports: Vec<(String, String)> = imports.iter().map(|(p, d)| (p.clone(), doc_text(d))).collect();
-        batch.push((Case { schema: Some(format!("{}\ndirective @vd(note: String) on VARIABLE_DEFINITION\n", schema.sdl())), main, imports, origin: "valid-by-construction".into(), k_only: false }, features));
+        batch.push((Case { schema: Some(format!("{}\ndirective @vd(note: String) on VARIABLE_DEFINITION\n", schema.sdl())), main, imports, origin: "valid-by-construction".into(), k_only: false, external: None }, features));
+        if pool.len() < 4000 {
+            // without the schema: the loader never sees one, and the session judge needs none
+            let mut c = batch.last().unwrap().0.clone();
+            c.schema = None;
+            pool.push(c);
+        }
         if batch.len() >= 100 {
             ctx.run(&batch);
             batch.clear();
@@ -1012,12 +1264,48 @@ fn main() {
         }
         let main = render(&mut rng, &main_doc);
         let imports: Vec<(String, String)> = imports.iter().map(|(p, d)| (p.clone(), doc_text(d))).collect();
-        batch.push((Case { schema: None, main, imports, origin: "syntactic".into(), k_only: undefined }, features));
+        batch.push((Case { schema: None, main, imports, origin: "syntactic".into(), k_only: undefined, external: None }, features));
+        if pool.len() < 4000 {
+            pool.push(batch.last().unwrap().0.clone());
+        }
         if batch.len() >= 200 {
             ctx.run(&batch);
             batch.clear();
         }
     }
     ctx.run(&batch);
+    // (C) interleaved loader sessions (loader ABI in a child process): 2–4 builds on one loader instance, each served
+    //     only from its own files; per build the module of ITS task is judged like any other output
+    let n_sessions = if search { 1200 } else { args.budget(40, 500) };
+    let with_imports: Vec<usize> = pool.iter().enumerate().filter(|(_, c)| !c.imports.is_empty()).map(|(i, _)| i).collect();
+    let mut scs = vec![];
+    for _ in 0..n_sessions {
+        if pool.is_empty() {
+            break;
+        }
+        let nb = [2, 3, 3, 4, 4][rng.below(5)];
+        let mut builds: Vec<(Case, String)> = vec![];
+        for k in 0..nb {
+            if k > 0 && rng.chance(1, 8) {
+                // the same module once more (same path, same files)
+                let j = rng.below(k);
+                builds.push(builds[j].clone());
+                continue;
+            }
+            // builds that wait for imported files are where a host suspends: half of the draws
+            let i = if !with_imports.is_empty() && rng.coin() { with_imports[rng.below(with_imports.len())] } else { rng.below(pool.len()) };
+            builds.push((pool[i].clone(), format!("/p{k}")));
+        }
+        let calls: Vec<usize> = builds.iter().map(|(c, _)| calls_of(c)).collect();
+        let specs = (0..3).map(|_| sessions::gen_schedule(&mut rng, &calls)).collect();
+        scs.push(SessionCase { builds, specs });
+        if scs.len() >= 50 {
+            ctx.run_sessions(&mut client, &scs);
+            scs.clear();
+        }
+    }
+    ctx.run_sessions(&mut client, &scs);
+    ctx.rep.count_n("session:worker-processes", client.spawned);
+    ctx.rep.count_n("session:worker-deaths", client.deaths);
     rep.write(&args);
 }
